@@ -240,6 +240,23 @@ def check_mesh(ctx, cfg, with_model=True):
             ctx.tol("kite sums (Lean, Float) vs mesh.areas (rel, locally Delaunay cells)", float(relk[site_ok].max()), 1e-9)
             ctx.corr(bool(relk[site_ok].max() <= 1e-9), "sum of kites (Lean, Float) vs the hull-based cell areas", dict(tag, worst=float(relk[site_ok].max())))
         ctx.corr(abs(kites.sum() - ta.sum()) <= 1e-9 * ta.sum(), "kites tile the triangulation (Float)", dict(tag))
+        # connectivity (Tdgl/Topology.lean: getEdges, boundaryEdgeIndices, boundarySites, sideCount) vs the mesh in use
+        from tdgl.finite_volume.mesh import Mesh as _Mesh
+        out = V.driver(["topo | " + " ".join(str(int(x)) for x in T.ravel())])
+        ctx.traces += 1
+        secs = [np.array([int(x) for x in sec.split()], dtype=int) for sec in out[0].split("|")]
+        m_edges = secs[0].reshape(-1, 2)
+        same_edges = m_edges.shape == em.edges.shape and bool((m_edges == em.edges).all())
+        ctx.corr(same_edges, "edge list (Lean getEdges) vs mesh.edge_mesh.edges", dict(tag))
+        ctx.corr(np.array_equal(secs[1], np.asarray(em.boundary_edge_indices)), "boundary edge indices (Lean) vs edge_mesh.boundary_edge_indices", dict(tag))
+        ctx.corr(np.array_equal(secs[2], np.asarray(_Mesh.find_boundary_indices(T))) and np.array_equal(secs[2], np.sort(np.asarray(mesh.boundary_indices))),
+                 "boundary sites (Lean) vs Mesh.find_boundary_indices / mesh.boundary_indices", dict(tag))
+        # the model's count of adjacent triangles selects the dual-length formula: 1 -> circumcentre to edge midpoint, 2 -> between circumcentres
+        if same_edges:
+            cnt = secs[3]
+            bad_cnt = int(((cnt < 1) | (cnt > 2)).sum())
+            if bad_cnt:
+                fail("edge-in-more-than-two-triangles", f"{bad_cnt} edges belong to 0 or more than 2 triangles", count=bad_cnt)
     if len(ctx.samples) < 4:
         ctx.samples.append(dict(tag, edges=E, triangles=nt, holes=len(holes), excluded_sites=int((~site_ok).sum()), euler=euler))
     return first
